@@ -107,7 +107,38 @@ RelMachines == << <<"EM_386", "RELOC_386", <<32, TRUE>>, FALSE>>, <<"EM_X86_64",
                   <<"EM_S390", "RELOC_S390", <<64, FALSE>>, TRUE>>, <<"EM_MIPS", "RELOC_MIPS", <<32, TRUE>>, FALSE>>,
                   <<"EM_LOONGARCH", "RELOC_LARCH", <<64, TRUE>>, TRUE>> >>
 
+\* ---- call-frame instructions (DWARF5 6.4.2, 7.24): a DWARF32 .debug_frame with one CIE (version 1, code alignment 1, data
+\* alignment -8, return address column 16, initial rules CFA = r7+8, r16 at cfa-8) and one FDE whose program is the swept
+\* instruction between two advances.  Bytes are written here; the dumps are GNU readelf's and the clone's.
+CfaItems == <<
+  <<"advance_loc", <<68>>>>, <<"advance_loc1", <<2, 8>>>>, <<"advance_loc2", <<3, 16, 0>>>>, <<"advance_loc4", <<4, 32, 0, 0, 0>>>>,
+  <<"set_loc", <<1, 64, 16, 64, 0, 0, 0, 0, 0>>>>,
+  <<"set_loc_then_advance", <<1, 64, 16, 64, 0, 0, 0, 0, 0, 72, 14, 24>>>>,
+  <<"offset", <<134, 2>>>>, <<"offset_extended", <<5, 17, 3>>>>, <<"restore", <<134, 2, 68, 198>>>>, <<"restore_extended", <<5, 17, 3, 68, 6, 17>>>>,
+  <<"undefined", <<7, 3>>>>, <<"same_value", <<8, 3>>>>, <<"register", <<9, 3, 12>>>>,
+  <<"remember_restore_state", <<10, 14, 16, 68, 11>>>>,
+  <<"def_cfa", <<12, 6, 16>>>>, <<"def_cfa_register", <<13, 6>>>>, <<"def_cfa_offset", <<14, 32>>>>,
+  <<"def_cfa_expression", <<15, 2, 119, 8>>>>, <<"expression", <<16, 3, 2, 119, 8>>>>,
+  <<"offset_extended_sf", <<17, 17, 126>>>>, <<"def_cfa_sf", <<18, 6, 126>>>>, <<"def_cfa_offset_sf", <<19, 125>>>>,
+  <<"val_offset", <<20, 3, 2>>>>, <<"val_offset_sf", <<21, 3, 126>>>>, <<"val_expression", <<22, 3, 2, 119, 8>>>>,
+  <<"GNU_args_size", <<46, 16>>>>, <<"nop", <<0>>>> >>
+PadNops(bs, m) == bs \o Rep(0, (m - (Len(bs) % m)) % m)
+FrameSec(prog) ==
+  LET cieb == PadNops(<<255, 255, 255, 255, 1, 0, 1, 120, 16, 12, 7, 8, 144, 1>>, 8)
+      fdeb == PadNops(LEn(0, 4) \o LEn(4198400, 8) \o LEn(256, 8) \o <<68>> \o prog \o <<72>>, 8)
+  IN LEn(Len(cieb), 4) \o cieb \o LEn(Len(fdeb), 4) \o fdeb
+FrameImage(prog) ==
+  [Base(<<64, TRUE>>, X64) EXCEPT !.secs = <<TextSec(64),
+      Sec(Dot(<<100, 101, 98, 117, 103, 95, 102, 114, 97, 109, 101>>), N(1), Z, Z, FrameSec(prog), N(Len(FrameSec(prog))), Z, Z, N(8), Z),
+      \* a minimal .debug_info / .debug_abbrev (one DWARF4 unit with an attribute-less compile unit entry): the clone only dumps
+      \* frames of files that have debugging information
+      Sec(Dot(<<100, 101, 98, 117, 103, 95, 105, 110, 102, 111>>), N(1), Z, Z, <<8, 0, 0, 0, 4, 0, 0, 0, 0, 0, 8, 1>>, N(12), Z, Z, N(1), Z),
+      Sec(Dot(<<100, 101, 98, 117, 103, 95, 97, 98, 98, 114, 101, 118>>), N(1), Z, Z, <<1, 17, 0, 0, 0, 0>>, N(6), Z, Z, N(1), Z)>>]
+
 Items ==
+  {[tag |-> "dw_cfa", name |-> CfaItems[i][1], opt |-> o, im |-> FrameImage(CfaItems[i][2])] :
+      i \in 1..Len(CfaItems), o \in {"--debug-dump=frames", "--debug-dump=frames-interp"}}
+  \cup
   \* ---- option -r: every relocation type name the clone has, under its machine
   UNION {{[tag |-> "r_type", name |-> n, opt |-> "-r", im |-> RelImage(RelMachines[i][3], Code(RelMachines[i][1]), RelMachines[i][4], Small2(Reg[n]))] :
             n \in V(RelMachines[i][2])} : i \in 1..Len(RelMachines)}
